@@ -64,6 +64,16 @@ def run(ctx):
         cases.append(case_of(t, seps))
         k = "words=%d" % len(t)
         sizes[k] = sizes.get(k, 0) + 1
+    # long names: a name of 62..1000 bytes passes through unchanged, alone, numbered and as a range
+    LONG = []
+    for L in (61, 62, 63, 64, 65, 100, 255, 300, 1000):
+        P = b"p" + b"q" * (L - 1)
+        LONG.append([("plain", P + b"01"), ("plain", P + b"02"), ("plain", b"z")])
+        LONG.append([("br", P, [(b"01", b"02")], ("end",)), ("plain", P)])
+        LONG.append([("br", P[:L // 2], [(b"1", b"2")], ("text", P[L // 2:]))])
+    for t in LONG:
+        trees.append(t)
+        cases.append(case_of(t, [b","] * len(t)))
     if not quick:
         # exhaustive sweep of (lo, hi, width) with hi <= 1100, width <= 5 around decimal boundaries, digit-ending prefix
         for lo in list(range(0, 12)) + list(range(95, 103)) + list(range(995, 1003)):
@@ -121,7 +131,9 @@ def run(ctx):
     for (step, cnt, pfx) in ((2, 300, b"sc"), (3, 700, b"q"), (2, 260, b"n0")):
         rs = [(b"%d" % (100 + step * k), None) for k in range(cnt)]
         e2e.append([("br", pfx, rs, ("end",)), ("plain", b"zlast")])
+    e2e += [t for t in LONG if max(len(n) for n in hlgen.denote(t)) <= 300]
     ne2e = 0
+    wfile = os.path.join(ctx.scratch, "wcoll01")
     for t in e2e:
         expr = hlgen.render(t, hlgen.gen_seps(rr, len(t)))
         want = hlgen.denote(t)
@@ -129,7 +141,20 @@ def run(ctx):
             os.unlink(logf)
         except OSError:
             pass
-        rc, o, e = real.run(["-R", "c02list", "-f", "1", "-w", expr, "true"], env={"C02_CONTACT_LOG": logf}, timeout=60, stdin=b"")
+        # the same words reach the list through -w, through a file named by -w ^file, or through the WCOLL variable
+        how = rr.choice(["-w", "-w", "^file", "WCOLL"])
+        env = {"C02_CONTACT_LOG": logf}
+        if how == "-w":
+            argv = ["-w", expr]
+        else:
+            with open(wfile, "wb") as fh:
+                body = b"".join(hlgen.render([w], []) + b"\n" for w in t)
+                fh.write(body[:-1] if rr.chance(1, 2) else body)       # the last line with and without its newline
+            argv = ["-w", "^" + wfile] if how == "^file" else []
+            if how == "WCOLL":
+                env["WCOLL"] = wfile
+            expr = b"(" + how.encode() + b") " + b" / ".join(hlgen.render([w], []) for w in t)
+        rc, o, e = real.run(["-R", "c02list", "-f", "1"] + argv + ["true"], env=env, timeout=60, stdin=b"")
         ne2e += 1
         try:
             got = [l.split(b" ", 1)[1] for l in open(logf, "rb").read().split(b"\n") if b" " in l]
@@ -137,7 +162,7 @@ def run(ctx):
             got = []
         if got != want:
             k = next((i for i, (a, b) in enumerate(zip(got, want)) if a != b), min(len(got), len(want)))
-            ctx.violation("input", case={"args": ["-w", expr.decode("latin-1")[:3000]]}, expected="%d hosts, the expansion" % len(want),
+            ctx.violation("input", case={"args": [how, expr.decode("latin-1")[:3000]]}, expected="%d hosts, the expansion" % len(want),
                           observed="%d hosts contacted; first difference at position %d: %r vs %r" % (len(got), k, got[k:k + 2], want[k:k + 2]), engine="args",
                           detail="the hosts pdsh contacts for -w %r differ from the mathematical expansion" % expr[:160])
             break
